@@ -6,10 +6,16 @@ id=$1; pkg=$2; name=${3:-$1}
 wt=/tmp/seed/$id
 out=/verif/seeded/$name
 export GOFLAGS=-mod=mod GOPROXY=off
+unset GOTOOLCHAIN GOSUMDB
 mkdir -p $out
-cp $wt/SEED_OUT/patch.diff $out/patch.diff
-demo=$(ls $wt/SEED_OUT/*_test.go | head -1)
-cp $demo $out/
+if [ -d $wt/SEED_OUT ]; then
+  cp $wt/SEED_OUT/patch.diff $out/patch.diff
+  cp $(ls $wt/SEED_OUT/*_test.go | head -1) $out/
+  cp $wt/SEED_OUT/notes.md $out/notes.md 2>/dev/null
+else
+  git -C /repo worktree add -q --detach $wt 9aad917
+fi
+demo=$(ls $out/*_test.go | head -1)
 dn=$(basename $demo)
 tn=$(grep -o 'func TestSeed[A-Za-z0-9_]*' $demo | head -1 | sed 's/func //')
 cd $wt
